@@ -6,4 +6,5 @@ From O1722 Require Import Spec Views LegacySpec AccModel Oracle.
 From O1722.Generated Require Import Tables.
 Extraction Language OCaml.
 Extraction "oracle_core.ml" m_getter m_setter m_init m_rawget m_rawset s_get s_set s_init m_helper
-  all_specs canonical_header spec_extract spec_insert cfg view_groups m_legacy legacy_api.
+  all_specs canonical_header spec_extract spec_insert cfg view_groups m_legacy legacy_api
+  m_can_create m_can_finalize m_can_set_payload m_can_payload_length s_can_create.
